@@ -384,3 +384,35 @@ fn live_memory_vs_file(rep: &mut Report, t: &Target, groups: &[Group], files: &[
         }
     }
 }
+
+
+/// C14's live clause on its own: targets that map synthetic ELF images; every module is read
+/// from target memory and from its image bytes and the answers are compared.
+pub fn run_c14_live(rep: &mut Report, thorough: bool) {
+    let mut rng = Rng::new(rep.seed.wrapping_mul(141_414));
+    let ntargets = if thorough { 120 } else { 12 };
+    for _ in 0..ntargets {
+        let mut b = Builder::new();
+        b.spec.dir = crate::target::new_dir("c14");
+        let dir = b.spec.dir.clone();
+        let mut files: Vec<FileTruth> = Vec::new();
+        for k in 0..rng.range(2, 8) {
+            let mut spec = ElfSpec::random(&mut rng);
+            spec.bits64 = true;
+            let pad = if rng.chance(1, 6) { PAGE } else { 0 };
+            scen::add_elf_file_ex(&mut b, &mut rng, &dir, &format!("libc14-{k}.so"), spec, false, pad, &mut files);
+        }
+        let t = match Target::spawn(b.spec.clone(), &b.opts) {
+            Ok(t) => t,
+            Err(e) => {
+                rep.inconclusive(format!("target did not start: {e}"));
+                continue;
+            }
+        };
+        let groups = groups_of(&t.maps());
+        let case = json!({"files": files.iter().map(|f| json!({"path": f.path, "pad": f.pad, "phdr_note": f.spec.phdr_note.is_some(), "empty_first_note": f.spec.empty_first_note, "soname": f.spec.soname})).collect::<Vec<_>>()});
+        live_memory_vs_file(rep, &t, &groups, &files, &case);
+        rep.case(fnv(case.to_string().as_bytes()), true);
+    }
+    rep.require("memory_vs_file_modules", 20);
+}
